@@ -1394,7 +1394,13 @@ func (pc *Context) ParseArguments(osenv *rsyncos.Env, args []string) error {
 			return nil
 
 		case OPT_FILTER:
-			opts.filterRules = append(opts.filterRules, pc.poptGetOptArg())
+			rule := pc.poptGetOptArg()
+			if !strings.HasPrefix(rule, "- ") && !strings.HasPrefix(rule, "+ ") && rule != "!" {
+				// The rule goes to the sender as it is, which reads anything
+				// else (protect, merge, modifiers, …) as a name to exclude.
+				return fmt.Errorf("filter rule %q not supported: only '- NAME' and '+ NAME' are", rule)
+			}
+			opts.filterRules = append(opts.filterRules, rule)
 		case OPT_EXCLUDE:
 			opts.filterRules = append(opts.filterRules, "- "+pc.poptGetOptArg())
 		case OPT_INCLUDE:
